@@ -67,9 +67,15 @@ def main():
     tableau(chk)
     for dyn in ('euler', 'filterexact'):
         chk.unit('src/engine/engine_support.c', 'mj_nextActivation', integrate.contracts(dyn), 'math', 'real', prefix='[%s]' % dyn)
+    # position integration of ball / free joints: the incremental rotation is composed on the right (body frame)
+    import os
+    from vlib.cast import VERIF
+    from contracts import spatial
+    shim = os.path.join(VERIF, 'shims', 'c24_laws.c')
+    chk.unit('verif:shims/c24_laws.c', 'c24_integrate', spatial.CONTRACTS, 'math', 'real', abspath=shim, check_arith=False)
     chk.assumptions |= {'the Runge-Kutta conditions are checked over the rationals for the tableau constants as written in the source (1.0/6.0 read as 1/6); rounding of the constants and of the stage arithmetic is not part of the claim'}
     chk.out_of_reach += ['mj_Euler / mj_implicit / mj_RungeKutta update rules as a whole (each calls ~20 pipeline functions; a postcondition on qvel or time needs a frame contract for every one of them)',
-                         'position integration on the configuration manifold (mj_integratePos: quaternion exponential, needs sin(x)/x limits)',
+                         'position integration on the configuration manifold as a whole (mj_integratePos); proved: mju_quatIntegrate of a unit quaternion equals q * axisAngle(vel/|vel|, scale*|vel|) and is unit',
                          'DC-motor activation slots of mj_nextActivation (LuGre bristle state: exp and abs of products)',
                          'fourth-order convergence (a numerical-analysis statement about trajectories)']
     return chk.finish()
